@@ -16,6 +16,7 @@ import (
 	"strings"
 	"sync/atomic"
 
+	"github.com/mithrandie/csvq/lib/option"
 	"github.com/mithrandie/csvq/lib/query"
 	"github.com/mithrandie/csvq/lib/value"
 	"github.com/mithrandie/ternary"
@@ -47,6 +48,11 @@ func Bin(sqlOp, tokOp string, a, b Ex) Ex {
 }
 func Not(a Ex) Ex    { return Ex{"(NOT " + a.SQL + ")", "not " + a.Tok} }
 func IsNull(a Ex) Ex { return Ex{"(" + a.SQL + " IS NULL)", "isnull " + a.Tok} }
+
+// CellOf: the scalar sub-query (SELECT col FROM tbl WHERE id = k): NULL, the cell, or "too many records"
+func CellOf(tbl, col string, k int) Ex {
+	return Ex{fmt.Sprintf("(SELECT %s FROM %s WHERE id = %d)", col, tbl, k), fmt.Sprintf("cell %s %s %s", tbl, col, Int(k).Tok)}
+}
 
 // scalar sub-query around an expression: same value, evaluated through Select
 func SubQ(a Ex) Ex { return Ex{"(SELECT " + a.SQL + ")", a.Tok} }
@@ -140,6 +146,35 @@ type Runner struct {
 	created int
 	// OnlyFailureLaws (stream c08): the frame / count laws of C05 are not evaluated, only the laws about failed statements
 	OnlyFailureLaws bool
+	// Wraps: probability (in 1/100) that a statement is executed inside a nested block / function / prepared statement
+	Wraps int
+	// Poison: value.VerifSetPoison is on for this runner (discarded value objects are overwritten)
+	Poison            bool
+	afterFailedCommit bool
+	commitLaw         bool // a law about COMMIT failed in this runner
+}
+
+var wrapSeq int64
+
+var WrapKinds = []string{"if", "if2", "while", "func", "prepare"}
+
+// Program renders the statement inside the nested block st.Wrap.  Blocks, loops and function bodies run in a
+// child scope of the one that declared the temporary tables; the table is read back after the block has ended.
+func Program(sql, wrap string) string {
+	n := atomic.AddInt64(&wrapSeq, 1)
+	switch wrap {
+	case "if":
+		return fmt.Sprintf("IF TRUE THEN %s; END IF;", sql)
+	case "if2":
+		return fmt.Sprintf("IF TRUE THEN IF FALSE THEN SELECT 1; ELSE %s; END IF; END IF;", sql)
+	case "while":
+		return fmt.Sprintf("VAR @vw%d := 0; WHILE @vw%d < 1 DO %s; @vw%d := @vw%d + 1; END WHILE;", n, n, sql, n, n)
+	case "func":
+		return fmt.Sprintf("DECLARE vfn%d FUNCTION () AS BEGIN %s; RETURN 1; END; SELECT vfn%d();", n, sql, n)
+	case "prepare":
+		return fmt.Sprintf("PREPARE vps%d FROM %s; EXECUTE vps%d; DISPOSE PREPARE vps%d;", n, option.QuoteString(sql), n, n)
+	}
+	return sql + ";"
 }
 
 func (r *Runner) Tab(name string) *Tab {
@@ -421,6 +456,10 @@ type Stmt struct {
 	MatchSQL map[string]string
 	// Check: direct laws on the implementation's own before/after tables; returns the names of failed laws
 	NewTable string // CREATE TABLE: the table that exists after success
+	// Wrap: the nested block the statement is executed in ("" = drawn by the runner, "plain" = top level,
+	// if | if2 | while | func | prepare); Prog: the program text that was actually run
+	Wrap  string
+	Prog  string
 	Check func(before, after map[string]*Snap, matched map[string][]string, counts map[string]int) []string
 	After func() // bookkeeping after success (new columns, next id …)
 }
@@ -585,7 +624,9 @@ func sameRows(a, b [][]string) bool {
 	return true
 }
 
-func sameStrs(a, b []string) bool { return strings.Join(a, "\x00") == strings.Join(b, "\x00") && len(a) == len(b) }
+func sameStrs(a, b []string) bool {
+	return strings.Join(a, "\x00") == strings.Join(b, "\x00") && len(a) == len(b)
+}
 
 // ----- INSERT / REPLACE -----
 
@@ -642,6 +683,17 @@ func (r *Runner) genInsert(t *Tab, f *Fault, replace bool) *Stmt {
 			}
 			rows[i][j] = Lit(p)
 			given[i][j] = hc.EncVal(p)
+		}
+	}
+	// a scalar sub-query that reads a cell of a (cached / temporary) table: (SELECT c FROM src WHERE id = k)
+	if g.Intn(5) == 0 || (f != nil && g.Intn(2) == 0) {
+		src := r.Tabs[g.Intn(len(r.Tabs))]
+		if dc := src.dataCols(); len(dc) > 0 && len(cols) > 1 {
+			i, j := g.Intn(m), g.Intn(len(cols))
+			if cols[j] != "id" {
+				rows[i][j] = CellOf(src.Name, dc[g.Intn(len(dc))], g.Intn(src.NextID+1))
+				given[i][j] = ""
+			}
 		}
 	}
 	fields2 := fields
@@ -727,7 +779,7 @@ func (r *Runner) genInsert(t *Tab, f *Fault, replace bool) *Stmt {
 							break
 						}
 					}
-					if row[j] != want {
+					if want != "" && row[j] != want {
 						bad = append(bad, "insert_wrong_cell")
 						return bad
 					}
@@ -841,6 +893,10 @@ func (r *Runner) genInsertSelect(t, src *Tab, f *Fault) *Stmt {
 		cond = Bin("=", "eq", failAt(Col(src.Name, "id", false), f.Row), Int(1))
 	case "len":
 		exprs = append(exprs, Int(1))
+	case "field":
+		// the failure comes AFTER the source query was evaluated: unknown column in the INSERT column list
+		fields = append(fields, "zz")
+		exprs = append(exprs, Int(1))
 	}
 	st := &Stmt{Kind: "insertsel", Targets: []string{t.Name}, Fault: f}
 	st.SQL = fmt.Sprintf("INSERT INTO %s (%s) SELECT %s FROM %s WHERE %s", t.Name, strings.Join(fields, ", "), sqls(exprs), src.Name, cond.SQL)
@@ -863,6 +919,56 @@ func (r *Runner) genInsertSelect(t, src *Tab, f *Fault) *Stmt {
 		return bad
 	}
 	st.After = func() { t.NextID = base + src.NextID + 1 }
+	return st
+}
+
+// REPLACE INTO t (id, c) USING (id) SELECT id | (id + K), e FROM src WHERE cond
+func (r *Runner) genReplaceSelect(t, src *Tab, f *Fault) *Stmt {
+	g := r.G
+	dc := t.dataCols()
+	if len(dc) == 0 {
+		return nil
+	}
+	c := dc[g.Intn(len(dc))]
+	fields := []string{"id", c}
+	keys := []string{"id"}
+	cs := r.crefs([]*Tab{src}, false)
+	idEx := Col(src.Name, "id", false)
+	base := 0
+	if g.Intn(2) == 0 {
+		base = t.NextID + 2000
+		idEx = Bin("+", "+", idEx, Int(base))
+	}
+	exprs := []Ex{idEx, r.valueEx(t.Kind[c], cs, false)}
+	cond := r.cond(cs, 1)
+	switch fk(f) {
+	case "subq":
+		exprs[1] = failAt(Col(src.Name, "id", false), f.Row)
+	case "where":
+		cond = Bin("=", "eq", failAt(Col(src.Name, "id", false), f.Row), Int(1))
+	case "len":
+		exprs = append(exprs, Int(1))
+	case "field":
+		fields = append(fields, "zz")
+		exprs = append(exprs, Int(1))
+	case "keyfield":
+		keys = []string{"zz"}
+	case "keynotset":
+		if len(dc) < 2 {
+			return nil
+		}
+		for _, d := range dc {
+			if d != c {
+				keys = []string{d}
+			}
+		}
+	}
+	st := &Stmt{Kind: "replacesel", Targets: []string{t.Name}, Fault: f}
+	st.SQL = fmt.Sprintf("REPLACE INTO %s (%s) USING (%s) SELECT %s FROM %s WHERE %s", t.Name, strings.Join(fields, ", "), strings.Join(keys, ", "), sqls(exprs), src.Name, cond.SQL)
+	st.Op = fmt.Sprintf("replacesel %s %s %d %s %s %d %s %s", t.Name, fieldsTok(fields), len(keys), strings.Join(keys, " "), src.Name, len(exprs), toks(exprs), cond.Tok)
+	if f == nil && base > 0 {
+		st.After = func() { t.NextID = base + src.NextID + 1 }
+	}
 	return st
 }
 
@@ -1370,7 +1476,7 @@ func (r *Runner) genCreate(t *Tab, f *Fault) *Stmt {
 // a record written twice by a multi-table update).  fault == true: an error is injected at a random record.
 func (r *Runner) Gen(fault bool) *Stmt {
 	g := r.G
-	kinds := []string{"insert", "insert", "insert", "insertsel", "replace", "replace", "replace", "update", "update", "update",
+	kinds := []string{"insert", "insert", "insert", "insertsel", "insertsel", "replacesel", "replace", "replace", "replace", "update", "update", "update",
 		"delete", "delete", "updatem", "updatem", "deletem", "addcol", "addcol", "dropcol", "rename", "create"}
 	for tries := 0; tries < 80; tries++ {
 		t := r.Tabs[g.Intn(len(r.Tabs))]
@@ -1408,6 +1514,18 @@ func (r *Runner) Gen(fault bool) *Stmt {
 				f.Row = g.Intn(src.NextID + 2)
 			}
 			s = r.genInsertSelect(t, src, f)
+		case "replacesel":
+			src := t
+			if o != nil && g.Intn(3) > 0 {
+				src = o
+			}
+			if src.NextID > 60 {
+				continue
+			}
+			if f != nil {
+				f.Row = g.Intn(src.NextID + 2)
+			}
+			s = r.genReplaceSelect(t, src, f)
 		case "replace":
 			s = r.genInsert(t, f, true)
 		case "update":
@@ -1448,17 +1566,18 @@ func (r *Runner) Gen(fault bool) *Stmt {
 
 // faults applicable to a statement kind
 var FaultsOf = map[string][]string{
-	"insert":    {"div", "len", "field"},
-	"insertsel": {"subq", "where", "len"},
-	"replace":   {"div", "len", "field", "keynotset", "keyfield"},
-	"update":    {"div", "subq", "field", "dup", "where"},
-	"delete":    {"where"},
-	"updatem":   {"div", "field", "dup", "where"},
-	"deletem":   {"where"},
-	"addcol":    {"div", "dup", "pos"},
-	"dropcol":   {"field"},
-	"rename":    {"dup", "field"},
-	"create":    {"dup", "exists", "subq", "where", "len", "dupas"},
+	"insert":     {"div", "len", "field"},
+	"insertsel":  {"subq", "where", "len", "field", "field"},
+	"replacesel": {"subq", "where", "len", "field", "keyfield", "keynotset"},
+	"replace":    {"div", "len", "field", "keynotset", "keyfield"},
+	"update":     {"div", "subq", "field", "dup", "where"},
+	"delete":     {"where"},
+	"updatem":    {"div", "field", "dup", "where"},
+	"deletem":    {"where"},
+	"addcol":     {"div", "dup", "pos"},
+	"dropcol":    {"field"},
+	"rename":     {"dup", "field"},
+	"create":     {"dup", "exists", "subq", "where", "len", "dupas"},
 }
 
 // ---------- running ----------
@@ -1472,6 +1591,20 @@ func ErrNum(err error) int {
 		return e.Number()
 	}
 	return -1
+}
+
+// poisonIn: a cell of the table holds the value lib/value writes into discarded objects
+func poisonIn(s *Snap) string {
+	for i, row := range s.Rows {
+		for j, c := range row {
+			for _, p := range poisonTokens {
+				if c == p {
+					return fmt.Sprintf("record %d, column %d", i, j)
+				}
+			}
+		}
+	}
+	return ""
 }
 
 func uniqueIDs(s *Snap) bool {
@@ -1534,12 +1667,26 @@ func (r *Runner) Exec(st *Stmt, cancelAt int64) *Outcome {
 		var n int64
 		r.Pr.Ctx = cancelCtx{saved, &n, cancelAt}
 	}
-	stdout, err := r.Pr.Exec(st.SQL + ";")
+	wrap := st.Wrap
+	if wrap == "" {
+		wrap = "plain"
+		// (a cancelled PROGRAM of several statements may fail after its DML statement completed: cancellation
+		// is injected into single statements only)
+		if cancelAt == 0 && r.Wraps > 0 && r.G.Intn(100) < r.Wraps {
+			wrap = WrapKinds[r.G.Intn(len(WrapKinds))]
+		}
+	}
+	st.Prog = Program(st.SQL, wrap)
+	stdout, err := r.Pr.Exec(st.Prog)
 	r.Pr.Ctx = saved
+	o.Count("block:" + wrap)
 	out := &Outcome{Err: err}
 	after := r.snapAll()
 	replay := func() map[string]interface{} {
-		m := map[string]interface{}{"sql": st.SQL, "cpu": r.CPU, "fault": fk(st.Fault)}
+		m := map[string]interface{}{"sql": st.Prog, "cpu": r.CPU, "fault": fk(st.Fault)}
+		if r.Poison {
+			m["poison_discarded_values"] = true
+		}
 		if cancelAt > 0 {
 			m["cancel_at_ctx_err_call"] = cancelAt
 		}
@@ -1561,6 +1708,23 @@ func (r *Runner) Exec(st *Stmt, cancelAt int64) *Outcome {
 			m["error"] = err.Error()
 		}
 		return m
+	}
+	if r.Poison {
+		for n, a := range after {
+			if cell := poisonIn(a); cell != "" {
+				rp := replay()
+				rp["table_with_discarded_value"] = n
+				rp["cell"] = cell
+				d := a.Dump(n)
+				if len(d) > 1500 {
+					d = d[:1500] + "…"
+				}
+				rp["table_after"] = d
+				o.Law("poisoned_read", rp)
+				out.Failed = append(out.Failed, "poisoned_read")
+				break
+			}
+		}
 	}
 	if err != nil {
 		// C08 on the implementation alone: nothing visible may have changed
@@ -1647,8 +1811,12 @@ func (r *Runner) TwinExec(st *Stmt) {
 	if r.Twin == nil {
 		return
 	}
-	if _, err := r.Twin.Exec(st.SQL + ";"); err != nil {
-		r.O.Law("control_run_diverged", map[string]string{"sql": st.SQL, "error": err.Error()})
+	prog := st.Prog
+	if prog == "" {
+		prog = st.SQL + ";"
+	}
+	if _, err := r.Twin.Exec(prog); err != nil {
+		r.O.Law("control_run_diverged", map[string]string{"sql": prog, "error": err.Error()})
 	}
 }
 
@@ -1691,11 +1859,67 @@ func FileText(dir, name string) (string, error) {
 
 // Commit commits on the main (and twin) processor, compares the committed state with the model, and re-sends
 // the file-backed tables (they are re-read from the files, as text, by the following statements).
-func (r *Runner) Commit() {
+func (r *Runner) Commit() { r.CommitAt(0) }
+
+func (r *Runner) fileBytes() map[string]string {
+	m := map[string]string{}
+	fs, _ := filepath.Glob(filepath.Join(r.Dir, "*"))
+	for _, f := range fs {
+		if strings.HasPrefix(filepath.Base(f), ".") {
+			continue
+		}
+		b, _ := os.ReadFile(f)
+		m[filepath.Base(f)] = string(b)
+	}
+	return m
+}
+
+// CommitAt commits on the main processor with the context failing from the cancelAt-th ctx.Err() call on
+// (0 = no cancellation).  A COMMIT that fails (the encoders look at the context every 16 records, i.e. after
+// bytes of earlier records / earlier tables have reached the temporary files) must change no table, no mark
+// and no file; the control run does not see it.  Returns true when the COMMIT was performed.
+func (r *Runner) CommitAt(cancelAt int64) bool {
 	o := r.O
-	if _, err := r.Pr.Exec("COMMIT;"); err != nil {
-		o.Law("commit_failed", err.Error())
-		return
+	var before map[string]*Snap
+	var filesBefore map[string]string
+	marksBefore := ""
+	saved := r.Pr.Ctx
+	if cancelAt > 0 {
+		before, filesBefore, marksBefore = r.snapAll(), r.fileBytes(), Marks(r.Pr)
+		var n int64
+		r.Pr.Ctx = cancelCtx{saved, &n, cancelAt}
+	}
+	_, err := r.Pr.Exec("COMMIT;")
+	r.Pr.Ctx = saved
+	if err != nil {
+		if cancelAt == 0 {
+			o.Law("commit_failed", err.Error())
+			return false
+		}
+		o.Count("failed_commit")
+		r.afterFailedCommit = true
+		rp := map[string]interface{}{"cancel_at_ctx_err_call": cancelAt, "error": err.Error(), "cpu": r.CPU}
+		after := r.snapAll()
+		for n, b := range before {
+			if !b.Equal(after[n]) {
+				rp["changed_table"] = n
+				o.Law("failed_commit_changed_table", rp)
+				r.commitLaw = true
+			}
+		}
+		if m := Marks(r.Pr); m != marksBefore {
+			rp["marks_before"], rp["marks_after"] = marksBefore, m
+			o.Law("failed_commit_changed_marks", rp)
+			r.commitLaw = true
+		}
+		for f, b := range r.fileBytes() {
+			if filesBefore[f] != b {
+				rp["file"], rp["before"], rp["after"] = f, clip(filesBefore[f]), clip(b)
+				o.Law("failed_commit_changed_file", rp)
+				r.commitLaw = true
+			}
+		}
+		return false
 	}
 	o.Case("c05.commit", "ok "+Marks(r.Pr))
 	if r.Twin != nil {
@@ -1717,11 +1941,61 @@ func (r *Runner) Commit() {
 			a, _ := os.ReadFile(filepath.Join(r.Dir, t.Name+".csv"))
 			b, _ := os.ReadFile(filepath.Join(r.TwinDir, t.Name+".csv"))
 			if string(a) != string(b) {
-				o.Law("partial_effects_committed", map[string]interface{}{"table": t.Name, "file_with_failed_statements": clip(string(a)), "file_of_control_run": clip(string(b))})
+				law := "partial_effects_committed"
+				if r.afterFailedCommit {
+					// the transaction saw a COMMIT that failed, then statements, then this COMMIT; the control run only the latter two
+					law = "commit_after_failed_commit_differs"
+				}
+				r.commitLaw = true
+				o.Law(law, map[string]interface{}{"table": t.Name, "bytes": len(a), "bytes_control": len(b), "file": clip(string(a)), "file_of_control_run": clip(string(b)), "file_tail": tail(string(a))})
 			}
 		}
 		r.SendTable(t)
 	}
+	r.afterFailedCommit = false
+	return true
+}
+
+func tail(s string) string {
+	if len(s) > 300 {
+		return "…" + s[len(s)-300:]
+	}
+	return s
+}
+
+// keepFirst: DELETE FROM t WHERE id >= k (the "fix the data" step after a failed COMMIT: the encoded table gets shorter)
+func keepFirst(t *Tab, k int) *Stmt {
+	cond := Bin(">=", "ge", Col(t.Name, "id", false), Int(k))
+	return &Stmt{Kind: "delete", Targets: []string{t.Name}, SQL: fmt.Sprintf("DELETE FROM %s WHERE %s", t.Name, cond.SQL),
+		Op: fmt.Sprintf("delete %s %s", t.Name, cond.Tok), Wrap: "plain"}
+}
+
+// FailedCommitEpisode: COMMIT cancelled at the cancelAt-th context check; if it failed, every file-backed table is cut
+// down (in the control run too) and a second COMMIT follows, whose files are compared byte for byte with the control run's.
+// Returns (the first COMMIT failed, a law failed).
+func (r *Runner) FailedCommitEpisode(cancelAt int64) (bool, bool) {
+	if r.CommitAt(cancelAt) {
+		return false, r.commitLaw
+	}
+	if r.commitLaw {
+		return true, true
+	}
+	for _, t := range r.Tabs {
+		if !t.File {
+			continue
+		}
+		st := keepFirst(t, 2+r.G.Intn(3))
+		out := r.Exec(st, 0)
+		if out.Err == nil {
+			r.TwinExec(st)
+		}
+		if len(out.Failed) > 0 {
+			return true, true
+		}
+	}
+	r.CompareTwin("after a failed COMMIT")
+	r.CommitAt(0)
+	return true, r.commitLaw
 }
 
 func clip(s string) string {
@@ -1837,6 +2111,7 @@ type fixedTab struct {
 
 func newFixedRunner(g *hc.Gen, o *hc.Out, root, tag string, tabs []fixedTab) *Runner {
 	r := &Runner{G: g, O: o, CPU: 1, OnlyFailureLaws: true}
+	atomic.AddInt64(&wrapSeq, 1000) // names of blocks / functions / prepared statements stay unique across processors
 	r.Dir = filepath.Join(root, tag)
 	r.TwinDir = filepath.Join(root, tag+"-twin")
 	_ = os.MkdirAll(r.Dir, 0o755)
@@ -1981,4 +2256,178 @@ func CancelCorpus(g *hc.Gen, o *hc.Out, root string) {
 		r.CompareTwin("cancel corpus: " + st.SQL)
 		r.Commit()
 	}
+}
+
+// ---------- fixed corpus of stream c05: every statement kind inside every kind of nested block ----------
+
+// NestedCorpus runs first on every c05 run: INSERT / INSERT..SELECT / REPLACE / REPLACE..SELECT / UPDATE / DELETE /
+// multi-table UPDATE and DELETE / ALTER ADD, RENAME, DROP against temporary tables declared at the TOP level (and a
+// file-backed table), each executed inside IF, nested IF/ELSE, WHILE, a user-defined function body and
+// PREPARE/EXECUTE; the table is read back after the block has ended and compared with the model and the frame laws.
+func NestedCorpus(g *hc.Gen, o *hc.Out, root string) {
+	rows := [][]int{{0, 5, 1}, {1, 6, 0}, {2, 7, 3}, {3, 8, 2}}
+	r := newFixedRunner(g, o, root, "corpus-nested", []fixedTab{
+		{"m1", false, []string{"id", "a", "b"}, rows}, {"f1", true, []string{"id", "e", "f"}, rows},
+		{"m2", false, []string{"id", "p", "q"}, rows},
+	})
+	r.OnlyFailureLaws = false
+	defer r.Close()
+	m1, f1, m2 := r.Tabs[0], r.Tabs[1], r.Tabs[2]
+	for _, wrap := range WrapKinds {
+		for round, t := range []*Tab{m1, m2, f1} {
+			other := m2
+			if t == m2 {
+				other = f1
+			}
+			gens := []func() *Stmt{
+				func() *Stmt { return r.genInsert(t, nil, false) },
+				func() *Stmt { return r.genInsertSelect(t, other, nil) },
+				func() *Stmt { return r.genUpdate(t, nil) },
+				func() *Stmt { return r.genInsert(t, nil, true) },
+				func() *Stmt { return r.genReplaceSelect(t, other, nil) },
+				func() *Stmt { return r.genUpdateMulti(t, other, nil) },
+				func() *Stmt { return r.genAddCol(t, nil) },
+				func() *Stmt { return r.genRename(t, nil) },
+				func() *Stmt { return r.genDropCol(t, nil) },
+				func() *Stmt { return r.genDeleteMulti(t, other, nil) },
+				func() *Stmt { return r.genDelete(t, nil) },
+				func() *Stmt { return r.genInsert(t, nil, false) },
+			}
+			if round == 2 {
+				gens = gens[:4] // the file-backed table: a shorter round
+			}
+			for _, gen := range gens {
+				st := gen()
+				if st == nil {
+					continue
+				}
+				st.Wrap = wrap
+				r.Exec(st, 0)
+				o.Count("corpus:nested:" + wrap)
+			}
+		}
+	}
+}
+
+// ---------- fixed corpora of stream c08 ----------
+
+func handStmt(kind, sql, op string, targets ...string) *Stmt {
+	return &Stmt{Kind: kind, SQL: sql, Op: op, Targets: targets, Wrap: "plain", Fault: &Fault{Kind: "after_source"}}
+}
+
+// DiscardCorpus runs first on every c08 run with the poisoning hook of lib/value switched on: statements that fail
+// AFTER their source query / scalar sub-query was evaluated (unknown column in the INSERT / REPLACE column list,
+// unknown key, wrong column count, a record written twice by UPDATE … FROM), each followed by ordinary statements
+// that allocate values; EVERY table (the sources included) is re-read after every statement, then COMMIT and the
+// files are compared with the control run's.
+func DiscardCorpus(g *hc.Gen, o *hc.Out, root string) {
+	on := SetPoison(true)
+	defer SetPoison(false)
+	rows := [][]int{{0, 5}, {1, 6}, {2, 7}}
+	r := newFixedRunner(g, o, root, "corpus-discard", []fixedTab{
+		{"f1", true, []string{"id", "a"}, rows}, {"m1", false, []string{"id", "p"}, rows},
+		{"f2", true, []string{"id", "e"}, rows}, {"m2", false, []string{"id", "q"}, rows},
+	})
+	r.Poison = on
+	defer r.Close()
+	tt := True()
+	failing := []*Stmt{
+		handStmt("insertsel", "INSERT INTO f2 (id, zz) SELECT id, a FROM f1 WHERE TRUE", "insertsel f2 2 id zz f1 2 $id $a "+tt.Tok, "f2"),
+		handStmt("insertsel", "INSERT INTO m2 (id, zz) SELECT id, p FROM m1 WHERE TRUE", "insertsel m2 2 id zz m1 2 $id $p "+tt.Tok, "m2"),
+		handStmt("insert", "INSERT INTO f2 (id, e, zz) VALUES (9, (SELECT a FROM f1 WHERE id = 1), 1)", "insert f2 3 id e zz 1 3 "+Int(9).Tok+" "+CellOf("f1", "a", 1).Tok+" "+Int(1).Tok, "f2"),
+		handStmt("insert", "INSERT INTO m2 (id, q, zz) VALUES (9, (SELECT p FROM m1 WHERE id = 2), 1)", "insert m2 3 id q zz 1 3 "+Int(9).Tok+" "+CellOf("m1", "p", 2).Tok+" "+Int(1).Tok, "m2"),
+		handStmt("replacesel", "REPLACE INTO f2 (id, e) USING (zz) SELECT id, p FROM m1 WHERE TRUE", "replacesel f2 2 id e 1 zz m1 2 $id $p "+tt.Tok, "f2"),
+		handStmt("replacesel", "REPLACE INTO m2 (id, q, zz) USING (id) SELECT id, a, 1 FROM f1 WHERE TRUE", "replacesel m2 3 id q zz 1 id f1 3 $id $a "+Int(1).Tok+" "+tt.Tok, "m2"),
+		handStmt("insertsel", "INSERT INTO f2 (id) SELECT id, p FROM m1 WHERE TRUE", "insertsel f2 1 id m1 2 $id $p "+tt.Tok, "f2"),
+		handStmt("updatem", "UPDATE f2 SET f2.e = m1.p FROM f2, m1 WHERE (m1.id >= 0)", "updatem 1 f2 2 f2 m1 1 f2 e $m1.p "+Bin(">=", "ge", Col("m1", "id", true), Int(0)).Tok, "f2"),
+	}
+	next := 100
+	for _, st := range failing {
+		out := r.Exec(st, 0)
+		o.Count("corpus:discard")
+		if out.Err == nil {
+			o.Law("corpus_statement_did_not_fail", map[string]string{"sql": st.SQL})
+			return
+		}
+		if len(out.Failed) > 0 {
+			return
+		}
+		// ordinary allocating statements
+		for _, tn := range []string{"m2", "f2"} {
+			t := r.Tab(tn)
+			c := t.Cols[1]
+			rowsSQL, rowsTok := []string{}, []string{}
+			for k := 0; k < 6; k++ {
+				a, b := Int(next), Lit(value.NewString(fmt.Sprintf("v%d", next)))
+				if k%2 == 0 {
+					b = Int(next * 3)
+				}
+				next++
+				rowsSQL = append(rowsSQL, "("+a.SQL+", "+b.SQL+")")
+				rowsTok = append(rowsTok, "2 "+a.Tok+" "+b.Tok)
+			}
+			al := &Stmt{Kind: "insert", Targets: []string{tn}, Wrap: "plain"}
+			al.SQL = fmt.Sprintf("INSERT INTO %s (id, %s) VALUES %s", tn, c, strings.Join(rowsSQL, ", "))
+			al.Op = fmt.Sprintf("insert %s 2 id %s 6 %s", tn, c, strings.Join(rowsTok, " "))
+			ao := r.Exec(al, 0)
+			if ao.Err == nil {
+				r.TwinExec(al)
+			}
+			if len(ao.Failed) > 0 {
+				return
+			}
+		}
+		r.CompareTwin("discard corpus: after " + st.SQL)
+	}
+	r.Commit()
+}
+
+// CommitCorpus runs first on every c08 run: "COMMIT fails after bytes reached the temporary files → the data is
+// fixed (made SHORTER) → COMMIT again", with the failure injected at the 1st, 2nd, … context check of the COMMIT
+// (the encoders look at the context every 16 records) until a COMMIT completes; three file-backed tables (two of
+// them larger than the 4096-byte write buffer, so that either the failing table or an earlier one has already
+// been flushed), compared byte for byte with a control run that never saw the failed COMMIT.
+func CommitCorpus(g *hc.Gen, o *hc.Out, root string) {
+	small := [][]int{{0, 1000000, 2000000}, {1, 1000001, 2000001}, {2, 1000002, 2000002}}
+	big := make([][]int, 400)
+	for i := range big {
+		big[i] = []int{i, 1000000 + i, 2000000 + i}
+	}
+	r := newFixedRunner(g, o, root, "corpus-commit", []fixedTab{
+		{"f1", true, []string{"id", "a", "b"}, small}, {"f2", true, []string{"id", "e", "f"}, small},
+		{"f3", true, []string{"id", "p", "q"}, small}, {"src", false, []string{"id", "x", "y"}, big},
+	})
+	defer r.Close()
+	tt := True()
+	for k := int64(1); k <= 150; k++ {
+		// grow f1 and f3 beyond the write buffer, touch f2
+		for i, tn := range []string{"f1", "f3", "f2"} {
+			t := r.Tab(tn)
+			base := int(k)*10000 + i*1000 + 1000
+			idEx := Bin("+", "+", Col("src", "id", false), Int(base))
+			cond := tt
+			if tn == "f2" {
+				cond = Bin("<", "lt", Col("src", "id", false), Int(2))
+			}
+			st := &Stmt{Kind: "insertsel", Targets: []string{tn}, Wrap: "plain"}
+			st.SQL = fmt.Sprintf("INSERT INTO %s (%s) SELECT %s, x, y FROM src WHERE %s", tn, strings.Join(t.Cols, ", "), idEx.SQL, cond.SQL)
+			st.Op = fmt.Sprintf("insertsel %s %s src 3 %s $x $y %s", tn, fieldsTok(t.Cols), idEx.Tok, cond.Tok)
+			out := r.Exec(st, 0)
+			if out.Err != nil || len(out.Failed) > 0 {
+				o.Law("corpus_statement_failed", map[string]string{"sql": st.SQL})
+				return
+			}
+			r.TwinExec(st)
+		}
+		failed, law := r.FailedCommitEpisode(k)
+		o.Count("corpus:commit_episode")
+		if law {
+			return
+		}
+		if !failed {
+			o.Count("corpus:commit_scan_completed")
+			return
+		}
+	}
+	o.Law("commit_scan_did_not_complete", "150 context checks")
 }
